@@ -124,3 +124,47 @@ PLANS["C20"] = {
     "floors": {"quick": {"inits": 2000, "selftest_entries": 400}},
     "assumptions": ["the documented algorithm list is taken from README section 'Self-Test'"],
 }
+
+
+def _c07(tier, seed):
+    return [
+        {"engine": "bounds", "args": [], "cases": 1, "shards": N, "timeout": 3000},
+        {"engine": "mix", "args": [], "cases": 8000 if tier == "quick" else 200000, "shards": N, "timeout": 3000},
+    ]
+
+
+PLANS["C07"] = {
+    "level": "exploration",
+    "runs": _c07,
+    "cov_class": ["C07", "C04"],
+    "rule": ("cases = guarded jobs: every suite (cipher, hash, AEAD tables) x every message length 0/1..140 "
+             "(thorough: ..272) plus 511-513, 1023-1025, 4095-4097, 8191, 16384, 65519-65534 x {end-flush, "
+             "start-flush} placement, alternating in-place/out-of-place, as single jobs and as co-scheduled "
+             "batches of 5 and 17 jobs each in its own arenas; every caller object (src, dst, IV, AAD, tag, each "
+             "key structure at its documented size) ends/starts at a PROT_NONE page with canaries on the mapped "
+             "side; plus schedule-fuzzer episodes with the same placement. Oracles: page faults classified per "
+             "object, canary damage, source snapshot, reference comparison. distinct = distinct (variant, suite, "
+             "direction, len mod 16, length class, IV/tag/AAD class, in-place, placement) tuples."),
+    "floors": {"quick": {"guarded_jobs": 300000, "jobs_checked": 300000}},
+    "assumptions": ["page-granular detection for reads inside the mapped slack is limited to the canary span "
+                    "(writes) -- reads that stay within the same page are only seen when the object ends at the "
+                    "page boundary (end-flush placement does that for every object)",
+                    "object sizes are the documented ones"],
+}
+PLANS["C12"] = {
+    "level": "fault_enumeration",
+    "runs": _simple("reject", 1, 1, timeout=(1800, 3600)),
+    "cov_class": "C12",
+    "exhaustive": True,
+    "rule": ("fault enumeration: for every suite (cipher, hash, AEAD tables; 3 lengths x 2 directions) and 19 "
+             "maximal-length baselines, on every variant and through both the job API and the burst API: the "
+             "baseline is confirmed accepted and correct, then each catalogue entry violates one documented "
+             "constraint (NULL pointers incl. each 3DES schedule, enums out of range, illegal key/IV lengths, every "
+             "illegal tag length 0..65, zero/over-limit/misaligned lengths, AAD over limit, CCM/DOCSIS geometry, "
+             "AEAD pairing mismatches, NULL custom callbacks); buffers are write-protected during the submit; "
+             "status, error code (documented acceptable set), descriptor and buffers are compared; every 16th "
+             "entry is followed by the valid job again. distinct = distinct (variant, suite, entry, API, errno)."),
+    "floors": {"quick": {"catalogue_entries_run": 150000, "valid_jobs_confirmed": 8000}},
+    "assumptions": ["acceptable error codes per entry come from the names in the IMB_ERR enum; where two names "
+                    "equally describe the constraint both are accepted"],
+}
